@@ -60,6 +60,28 @@ def run(ctx):
         p['banner'] = b
         peers.append(p)
     peers += [g.peer() for _ in range(80 if q else 3000)]
+    # "settled" peers: lists to which the tool's own add/remove advice has been applied until none is left, while one measured attribute
+    # (small RSA host key, small group-exchange modulus) keeps a warning or failure: the only recommendation of that category is a change
+    def settle(p, keep):
+        for _ in range(8):
+            rr = canon.parse_recs(canon.parse_text(inproc.run_output(p)['text']))
+            moved = False
+            for (lvl, act, cat, name, notes) in rr:
+                if act == 'add' and name not in p[cat]:
+                    p[cat].append(name); moved = True
+                elif act == 'del' and name in p[cat] and name not in keep and len(p[cat]) > 1:
+                    p[cat].remove(name); moved = True
+            if not moved:
+                break
+        return p
+    for ban in (['SSH-2.0-OpenSSH_8.4', 'SSH-2.0-OpenSSH_9.6'] if q else ['SSH-2.0-OpenSSH_7.4', 'SSH-2.0-OpenSSH_8.4', 'SSH-2.0-OpenSSH_9.6', 'SSH-2.0-dropbear_2022.83', 'SSH-2.0-libssh_0.9.6']):
+        for size in (1024, 2048, 4096):
+            base = lambda: dict(banner=ban, client_audit=False, comp=['none'], kex=['curve25519-sha256'], enc=['aes256-ctr'], mac=['hmac-sha2-512-etm@openssh.com'])
+            a = dict(base(), key=['rsa-sha2-512', 'rsa-sha2-256', 'ssh-ed25519'], dh={},
+                     hostkeys={t: (b'blob', size, '', 0) for t in ('ssh-rsa', 'rsa-sha2-256', 'rsa-sha2-512')})
+            peers.append(settle(a, ('rsa-sha2-512', 'rsa-sha2-256')))
+            b = dict(base(), kex=['curve25519-sha256', 'diffie-hellman-group-exchange-sha256'], key=['ssh-ed25519'], hostkeys={}, dh={'diffie-hellman-group-exchange-sha256': size})
+            peers.append(settle(b, ('diffie-hellman-group-exchange-sha256',)))
     recs = reportfam.standard(ctx, 0, peers=peers, parts=('recs', 'items', 'json'))
     nontriv = set()
     for r in recs:
@@ -117,8 +139,6 @@ def run(ctx):
                         if (cat, name) not in seen:
                             ctx.violation('gss-not-recommended-for-removal', 'gss key exchange %r is rated %s but never recommended for removal' % (name, sorted(sev)), {'op': 'output', 'peer': pj})
                     continue
-                if not ((len(d) > 1 and d[1]) or (len(d) > 2 and d[2])):
-                    continue   # rated only through a measured/Terrapin edit
                 toks = (d[0][0] or '').split(',') if d[0] and d[0][0] else None
                 known = True
                 if toks is not None:
